@@ -51,6 +51,11 @@ func seedCorpus(f *testing.F, client bool) {
 				f.Add(byte(ei|8), append([]byte{byte(len(fr))}, fr...))
 			}
 		}
+		for k, fr := range lengthAttacks(enc, client) {
+			if k%7 == 0 && len(fr) < 255 {
+				f.Add(byte(ei), append([]byte{byte(len(fr))}, fr...))
+			}
+		}
 		// hostile constants found so far
 		for _, hx := range []string{"08", "01", "80", "08051a", "0200", "08011201a4", "88081201c81a08532e53747265616d"} {
 			b, _ := hex.DecodeString(hx)
